@@ -7,7 +7,11 @@ import (
 	"os"
 	"path/filepath"
 	"reflect"
+	"runtime"
+	"runtime/debug"
+	"runtime/pprof"
 	"sort"
+	"strconv"
 	"strings"
 	"time"
 
@@ -381,6 +385,12 @@ func c14Scenario1(c *core.Ctx, si int, sc c14Scenario, bound int) {
 			ch.Bound = 0 // one execution only
 		}
 		c.Count("executions", 1)
+		if ch.Executions%64 == 0 {
+			// collect now, while every managed thread is parked: the
+			// background collector is starved by threads waiting in raw
+			// futex calls and the heap would otherwise wander (see c14Run)
+			runtime.GC()
+		}
 		c.Max("max_points_per_schedule", int64(len(tr.Taken)))
 		c.Max("max_switches", int64(tr.Switches))
 		rp := map[string]interface{}{"scenario": si, "name": sc.Name, "plan": plan}
@@ -449,6 +459,13 @@ func c14Scenario1(c *core.Ctx, si int, sc c14Scenario, bound int) {
 	}
 	c.Count("nodes", ch.Nodes)
 	c.Count("edges", ch.Edges)
+	{
+		var ms runtime.MemStats
+		runtime.ReadMemStats(&ms)
+		c.Max("heap_inuse_mb", int64(ms.HeapInuse>>20))
+		c.Max("heap_sys_mb", int64(ms.Sys>>20))
+		c.Max("goroutines", int64(runtime.NumGoroutine()))
+	}
 	if si >= 0 {
 		c.Count(fmt.Sprintf("schedules_scenario_%d_bound_%d", si, bound), ch.Executions)
 	}
@@ -473,6 +490,11 @@ func c14Run(c *core.Ctx) {
 	for r := uint32(0); r < 5001; r++ {
 		cal.Rep(5001, r) // the big list of scenario w5
 	}
+	// keep the Go heap small and compact: under the race detector every page
+	// the heap ever touches keeps its shadow memory, so a heap that is allowed
+	// to wander costs several GB per worker over a 40-minute run
+	debug.SetGCPercent(20)
+	debug.SetMemoryLimit(256 << 20)
 	verifrt.PointHook = sched.Point
 	vsync.BlockHook = sched.Block
 	vsync.UnblockHook = sched.Unblock
@@ -578,6 +600,13 @@ func c14Run(c *core.Ctx) {
 			}
 		}
 	}
+	if pf := os.Getenv("VERIF_C14_HEAPPROF"); pf != "" && c.Shard == 1 { // debugging aid; never set by the registered commands
+		if f, err := os.Create(pf); err == nil {
+			runtime.GC()
+			pprof.WriteHeapProfile(f)
+			f.Close()
+		}
+	}
 	if c.Shard == 0 {
 		c.Sample(map[string]interface{}{"scenario": c14Scenarios[0].Name, "plan": []int{0, 0, 0, 1}, "meaning": "thread 0 runs 3 statements, is preempted, thread 1 runs to completion, thread 0 resumes"})
 	}
@@ -607,11 +636,26 @@ func init() {
 		Assume:  []string{"bounded deviations (preemptions and non-default thread choices both cost 1)", "memory-model effects beyond what the race detector flags are not modelled", "helper goroutines spawned by golang-set's Iter() talk only to their spawner and run free"},
 		Run:     c14Run,
 		Prepare: c14Prepare,
+		// the race detector's memory grows with the number of schedules a
+		// process has run (about 2-3 MB/s here, 4 GB per worker after 40
+		// minutes: 16 such workers exhaust a 62 GB machine). thorough
+		// therefore runs 64 shards, 16 at a time, 10 minutes each.
+		Shards: func(tier string) int {
+			if tier == "quick" {
+				return 16
+			}
+			return 64
+		},
 		Budget: func(tier string) time.Duration {
+			if e := os.Getenv("VERIF_C14_BUDGET_S"); e != "" { // ad-hoc runs only; the registered commands do not set it
+				if v, err := strconv.Atoi(e); err == nil && v > 0 {
+					return time.Duration(v) * time.Second
+				}
+			}
 			if tier == "quick" {
 				return 150 * time.Second
 			}
-			return 40 * time.Minute
+			return 10 * time.Minute
 		},
 	})
 	Replayers["C14"] = func(raw json.RawMessage) (string, bool) {
